@@ -501,6 +501,37 @@ def run_basis_case(ctx, drv, case):
 
 
 # ---------------------------------------------------------------------------------------------- grids
+_GL_CACHE = {}
+
+
+def piecewise_integral(bobj, lo, hi, order):
+    """integral of a basis object over [lo,hi] by Gauss-Legendre on every piece between its break points (exact for the
+    piecewise polynomials of degree <= order; independent of the object's own get_integral and of its interval arguments)"""
+    import numpy.polynomial.legendre as legendre
+    inner = getattr(bobj, "spline", bobj)
+    deg = max(int(order), len(inner.knots) - 1, 1)
+    if deg // 2 + 1 not in _GL_CACHE:
+        _GL_CACHE[deg // 2 + 1] = legendre.leggauss(deg // 2 + 1)
+    cg, wg = _GL_CACHE[deg // 2 + 1]
+    # the plain (unmodified) functions vanish outside their support: integrate there only
+    tname = type(bobj).__name__
+    if tname == "LagrangeBasisRestricted":
+        s0, s1 = bobj.get_boundaries()
+        lo, hi = max(lo, float(s0)), min(hi, float(s1))
+    elif tname in ("BSpline", "HierarchicalNotAKnotBSpline") and type(inner).__name__ == "BSpline":
+        lo, hi = max(lo, float(inner.knots[inner.index])), min(hi, float(inner.knots[inner.index + inner.p + 1]))
+    if not lo < hi:
+        return 0.0
+    cuts = sorted(set([lo, hi] + [k for k in breakpoints(bobj) if lo < k < hi]))
+    total = 0.0
+    for u, v in zip(cuts, cuts[1:]):
+        if v <= u:
+            continue
+        mid, half = (u + v) / 2, (v - u) / 2
+        total += half * sum(w * float(bobj(mid + half * c)) for c, w in zip(cg, wg))
+    return total
+
+
 class _Recorder(object):
     """stands in for `integrator.hierarchization` during one integrate and records what it is called with"""
 
@@ -611,7 +642,7 @@ def run_grid_case(ctx, drv, case, grid_obj=None, report_case=None, step=None):
         rec = _Recorder(g.integrator.hierarchization)
         g.integrator.hierarchization = rec
         try:
-            g.integrate(f, lv, start, end)
+            integral_value = g.integrate(f, lv, start, end)
         finally:
             g.integrator.hierarchization = rec.inner
         num_points = [len(g.get_coordinates_dim(d)) for d in range(dim)]
@@ -861,6 +892,47 @@ def run_grid_case(ctx, drv, case, grid_obj=None, report_case=None, step=None):
                            "degrees": case["degrees"], "points_per_dim": num_points})
             ok = False
         ctx.count("poly_within" if within else "poly_literal_only")
+    # ---- 1-D weights = integrals of the basis functions over the CURRENT area [start,end] (not the whole domain, not the
+    # support); grid.integrate = integral of the interpolant over the area = sum surplus * product of those integrals
+    if n_nodes:
+        try:
+            total_basis = sum(num_points)
+            all_of_them = total_basis <= 24
+            rw = random.Random(case["tseed"] ^ 0x3a17)
+            exact_w = []
+            wbad = None
+            for d in range(dim):
+                lo_d, hi_d = float(start[d]), float(end[d])
+                wd = np.array(g.weights[d], dtype=float)
+                idxs = list(range(num_points[d])) if all_of_them else sorted(rw.sample(range(num_points[d]), min(6 if (not is_global and not tags.get('full_domain', True)) else 3, num_points[d])))
+                ex = {}
+                for j in idxs:
+                    ex[j] = piecewise_integral(g.get_basis(d, j), lo_d, hi_d, case["p"])
+                    ctx.count("weights_checked")
+                    if wbad is None and (len(wd) != num_points[d] or abs(wd[j] - ex[j]) > 1e-9 * max(1.0, abs(ex[j]), hi_d - lo_d) * 10):
+                        wbad = {"dim": d, "basis": j, "coordinate": float(g.get_coordinates_dim(d)[j]), "weight": float(wd[j]) if j < len(wd) else None,
+                                "integral_of_basis_over_area": ex[j], "area": [lo_d, hi_d], "class": type(g.get_basis(d, j)).__name__}
+                exact_w.append(ex)
+            if wbad is not None:
+                ctx.violation("grid-weight", dict(tags), rcase, wbad)
+                ok = False
+            elif all_of_them:
+                # tensor contraction of the surpluses with the exact 1-D integrals
+                t = np.array(surplus, dtype=float).reshape([case["outlen"]] + [int(n) for n in num_points])
+                for d in range(dim - 1, -1, -1):
+                    t = np.tensordot(t, np.array([exact_w[d][j] for j in range(num_points[d])]), axes=([d + 1], [0]))
+                got = np.atleast_1d(np.array(integral_value, dtype=float)).reshape(-1)
+                vol = float(np.prod([float(end[d]) - float(start[d]) for d in range(dim)]))
+                wsc = max(1.0, float(np.max(np.abs(surplus)))) * max(vol, 1e-300)
+                if got.shape != t.reshape(-1).shape or not np.max(np.abs(got - t.reshape(-1))) <= 1e-8 * relax * wsc * max(1.0, float(np.prod(num_points))) :
+                    ctx.violation("grid-integral", dict(tags), rcase,
+                                  {"integrate": got.tolist(), "integral_of_interpolant": t.reshape(-1).tolist()})
+                    ok = False
+                ctx.count("grid_integral_checked")
+        except Exception as e:
+            ctx.violation("grid-weight", dict(tags, kind="exception"), rcase, {"exception": exc_kind(e), "message": str(e)[:200],
+                                                                                "where": traceback.format_exc().strip().split("\n")[-3].strip()[:160]})
+            ok = False
     # ---- the basis objects the grid built: first derivative vs finite differences and vs the model
     if n_nodes:
         rr = random.Random(case["tseed"] ^ 0x77)
@@ -1257,7 +1329,7 @@ def extreme_box(r, dim):
 
 def gen_local_case(r, thorough):
     fam = r.choice(LOCAL)
-    p = r.choice([1, 2, 3, 5, 1, 2, 3, 5, 4, 6, 7, 8, 9]) if fam == "LagrangeGrid" else r.choice([1, 3, 5, 1, 3, 5, 7, 9])
+    p = r.choice([1, 2, 3, 5, 1, 2, 3, 5, 4, 6, 7, 8, 9]) if fam == "LagrangeGrid" else r.choice([1, 3, 5, 1, 3, 5, 1, 3, 5, 1, 3, 5, 7, 9])
     dim = r.choice([1, 1, 2, 2, 3])
     boundary = r.random() < 0.8
     modified = (not boundary) and fam == "BSplineGrid" and r.random() < 0.4
@@ -1277,7 +1349,9 @@ def gen_local_case(r, thorough):
             s, e = a[d] + i * w, a[d] + (i + 1) * w
         start.append(s)
         end.append(e)
-    budget = 1300 if thorough else 500
+    budget = 1300 if thorough else 350
+    if "BSpline" in fam and p >= 7:
+        budget = 100          # the Cox-de Boor recursion costs 2^p calls per evaluation (code and model)
     while True:
         lv = [r.randint(0, 5 if dim == 1 else (4 if dim == 2 else 3)) for _ in range(dim)]
         if np.prod([2 ** l + 1 for l in lv]) <= budget:
@@ -1298,7 +1372,7 @@ def gen_local_case(r, thorough):
 
 def gen_global_case(r, thorough):
     fam = r.choice(GLOBAL)
-    p = r.choice([1, 2, 3, 5, 1, 2, 3, 5, 4, 6, 7, 8, 9]) if fam == "GlobalLagrangeGrid" else r.choice([1, 3, 5, 1, 3, 5, 7, 9])
+    p = r.choice([1, 2, 3, 5, 1, 2, 3, 5, 4, 6, 7, 8, 9]) if fam == "GlobalLagrangeGrid" else r.choice([1, 3, 5, 1, 3, 5, 1, 3, 5, 1, 3, 5, 7, 9])
     dim = r.choice([1, 1, 2, 2, 3])
     boundary = r.random() < 0.7
     modified = (not boundary) and r.random() < 0.4
@@ -1307,7 +1381,9 @@ def gen_global_case(r, thorough):
     extreme = r.random() < 0.15
     if extreme:
         a, b = extreme_box(r, dim)
-    budget = 1300 if thorough else 450
+    budget = 1300 if thorough else 320
+    if "BSpline" in fam and p >= 7:
+        budget = 100          # the Cox-de Boor recursion costs 2^p calls per evaluation (code and model)
     while True:
         ns = []
         for d in range(dim):
@@ -1425,7 +1501,7 @@ def run(ctx):
     budget = 70 if not thorough else 530
     n_basis = 120 if not thorough else 700
     min_basis = 120
-    min_grid = 150 if not thorough else 500
+    min_grid = 120 if not thorough else 500
     case_limit = 120          # seconds for ONE case; a slower case is reported, never silently absorbed
     state = {"drv": drv}
 
@@ -1478,9 +1554,9 @@ def run(ctx):
             break
     stopped_early = False
     while ng < min_grid or left(budget) > 0:
-        if ng % 8 == 3:
-            case = gen_history_case(r, thorough)      # object histories (at least 18 in quick: min_grid / 8)
-        elif ng % 8 == 7:
+        if ng % 12 == 3:
+            case = gen_history_case(r, thorough)      # object histories (at least 12 in quick: min_grid / 12)
+        elif ng % 12 == 7:
             case = gen_siblings_case(r, thorough)     # two objects alive, equal level vectors, interleaved use
         else:
             case = gen_local_case(r, thorough) if ng % 2 == 0 else gen_global_case(r, thorough)
